@@ -167,6 +167,10 @@ impl G<'_> {
                     // a directory in place of a command file: the PATH search passes over it
                     "(PATH=$HERE:$PATH; d1 2>/dev/null; echo \"st=$?\"; command -v d1; echo \"st=$?\")",
                     "(PATH=$HERE/d1:$PATH; d2 2>/dev/null; echo \"st=$?\"; command -v d2; echo \"st=$?\")",
+                    // command names with a slash that cannot be executed
+                    "./f0 2>/dev/null; echo \"st=$?\"; ./d1 2>/dev/null; echo \"st=$?\"; ./missing 2>/dev/null; echo \"st=$?\"; f0/x 2>/dev/null; echo \"st=$?\"",
+                    "(exec ./f0) 2>/dev/null; echo \"st=$?\"; (exec ./d1) 2>/dev/null; echo \"st=$?\"; (exec ./missing) 2>/dev/null; echo \"st=$?\"",
+                    "command -v ./f0; echo \"st=$?\"; command -v ./d1; echo \"st=$?\"; command -v ./missing; echo \"st=$?\"",
                     // a child that has been waited for no longer exists: no signal reaches it
                     "(exit 3) & p=$!; wait; kill -s TERM $p 2>/dev/null; echo \"kill st=$?\"; wait $p; echo \"st=$?\"",
                     "(exit 4) & p=$!; wait $p; echo \"st=$?\"; kill -s 0 $p 2>/dev/null; echo \"kill0 st=$?\"; kill -s CONT $p 2>/dev/null; echo \"cont st=$?\"",
